@@ -21,6 +21,29 @@ type solverSpec struct {
 
 var solvers = []solverSpec{
 	{"z3-5.1.0", func(f string, t int) []string { return []string{"z3-new", fmt.Sprintf("-T:%d", t), f} }},
+	{"z3-5.1.0 auto_config=false", func(f string, t int) []string {
+		if t > 6 {
+			t = 6
+		}
+		return []string{"z3-new", fmt.Sprintf("-T:%d", t), "auto_config=false", f}
+	}},
+	{"z3-4.8.12", func(f string, t int) []string { return []string{"z3", fmt.Sprintf("-T:%d", t), f} }},
+	{"cvc5-1.0", func(f string, t int) []string { return []string{"cvc5", fmt.Sprintf("--tlimit=%d", t*1000), f} }},
+}
+
+var retryPortfolio = []solverSpec{
+	{"z3-5.1.0 auto_config=false", func(f string, t int) []string {
+		return []string{"z3-new", fmt.Sprintf("-T:%d", t), "auto_config=false", f}
+	}},
+	{"z3-4.8.12 seed=1", func(f string, t int) []string {
+		return []string{"z3", fmt.Sprintf("-T:%d", t), "smt.random_seed=1", f}
+	}},
+	{"z3-5.1.0 seed=1", func(f string, t int) []string {
+		return []string{"z3-new", fmt.Sprintf("-T:%d", t), "smt.random_seed=1", f}
+	}},
+	{"z3-5.1.0 relevancy=0 seed=2", func(f string, t int) []string {
+		return []string{"z3-new", fmt.Sprintf("-T:%d", t), "smt.relevancy=0", "smt.random_seed=2", f}
+	}},
 	{"z3-4.8.12", func(f string, t int) []string { return []string{"z3", fmt.Sprintf("-T:%d", t), f} }},
 	{"cvc5-1.0", func(f string, t int) []string { return []string{"cvc5", fmt.Sprintf("--tlimit=%d", t*1000), f} }},
 }
@@ -109,10 +132,19 @@ func discharge(o *Obligation, idx int, opt dischargeOpts) {
 		os.Remove(file)
 		return
 	}
-	for i, s := range solvers {
+	list := solvers
+	if opt.retry {
+		// second attempt: a portfolio of configurations and seeds (quantifier instantiation is heuristic: an
+		// obligation that diverges under one configuration is often immediate under another)
+		list = retryPortfolio
+	}
+	for i, s := range list {
 		t := opt.timeoutS
 		if i == 0 && !opt.allAgree && !opt.retry && t > 3 {
 			t = 3 // first attempt short; the others get the full budget
+		}
+		if opt.retry && t > 15 && i < len(list)-2 {
+			t = 15
 		}
 		st, out := try(s, t)
 		if st == "unsat" || st == "sat" {
@@ -209,7 +241,7 @@ func getModelValues(o *Obligation, terms []string, scratch string, timeoutS int)
 	file := filepath.Join(scratch, "model_"+sanitize(o.Name)+".smt2")
 	os.WriteFile(file, []byte(q), 0644)
 	defer os.Remove(file)
-	for _, s := range solvers[:2] {
+	for _, s := range solvers[:3] {
 		st, out, _ := runSolver(s, file, timeoutS)
 		if st != "sat" {
 			continue
